@@ -171,9 +171,9 @@ func VerifH_RouteConn() {
 
 // fListener is a base listener that blocks in Accept until closed (or fails at once).
 type fListener struct {
-	closed   bool
-	closes   int
-	failNow  bool
+	closed    bool
+	closes    int
+	failNow   bool
 	acceptErr error
 }
 
@@ -215,7 +215,6 @@ func VerifH_MuxStop() {
 	vrt.Assert(vrt.Unfinished() == 0, "no goroutine of the mux is left behind")
 	vrt.Cover("muxstop-end")
 }
-
 
 // VerifH_RouteThenStop: a connection is routed while nobody is accepting on its listener;
 // then the listener is closed or the mux stops (symbolic), or an Accept finally arrives.
